@@ -444,7 +444,7 @@ func (r *replayer) emit(n *rnode, target string) {
 			r.fail("%s is a raw slice in the model", target)
 			return
 		}
-		if !ln.IsInt64() || ln.Int64() < 0 || ln.Int64() > 256 {
+		if !ln.IsInt64() || ln.Int64() < 0 || ln.Int64() > maxLen(n.t) {
 			r.fail("%s has length %s in the model", target, ln)
 			return
 		}
@@ -471,7 +471,7 @@ func (r *replayer) expandSlices(n *rnode, depth int) {
 	switch n.kind {
 	case "slice":
 		ln, ok := smtInt(r.val(n.loc.term[2]))
-		if !ok || !ln.IsInt64() || ln.Int64() < 0 || ln.Int64() > 256 {
+		if !ok || !ln.IsInt64() || ln.Int64() < 0 || ln.Int64() > maxLen(n.t) {
 			return
 		}
 		et := n.t.Underlying().(*types.Slice).Elem()
@@ -505,7 +505,7 @@ func (r *replayer) sliceLenTerms(n *rnode, out *[]string) {
 	}
 	switch n.kind {
 	case "slice":
-		*out = append(*out, n.loc.term[2])
+		*out = append(*out, fmt.Sprintf("%d|%s", maxLen(n.t), n.loc.term[2]))
 		for _, e := range n.elems {
 			r.sliceLenTerms(e, out)
 		}
@@ -723,15 +723,19 @@ func doReplay(eng *engine, id string, j job, replayPath string) (out replayOutco
 		}
 		nlens = len(lens)
 		bound = nil
-		for _, l := range lens {
+		for i, l := range lens {
+			k := strings.Index(l, "|")
+			mx := l[:k]
+			l = l[k+1:]
+			lens[i] = l
 			if u.m.intMode {
-				bound = append(bound, fmt.Sprintf("(<= %s 64)", l))
+				bound = append(bound, fmt.Sprintf("(<= %s %s)", l, mx))
 			} else {
-				bound = append(bound, fmt.Sprintf("(bvule %s (_ bv64 64))", l))
+				bound = append(bound, fmt.Sprintf("(bvule %s (_ bv%s 64))", l, mx))
 			}
 		}
 		if !r.getValues(j, dir, base, append(append([]string{}, bound...), pinned...)) {
-			out.How = "no counterexample with all slices at most 64 elements long (or the solver could not produce one in time)"
+			out.How = "no counterexample with all slices at most 4096 scalars / 256 other elements long (or the solver could not produce one in time)"
 			return
 		}
 		pinned = nil
@@ -934,6 +938,9 @@ func doReplay(eng *engine, id string, j job, replayPath string) (out replayOutco
 			out.How = "the real function panics on the counterexample input: " + panicked
 		} else {
 			out.How = "the real function did not panic on the counterexample input"
+			if hasLoops(u.fn) {
+				out.How += " [the function has loops proved by invariants: the counterexample may describe an intermediate state that no execution reaches]"
+			}
 		}
 		return
 	}
@@ -993,7 +1000,12 @@ func doReplay(eng *engine, id string, j job, replayPath string) (out replayOutco
 		if len(diffs) > 6 {
 			diffs = diffs[:6]
 		}
-		out.How = "the real function's outputs differ from the model's prediction on this input (the engine's model of the code is imprecise here, or the input could not be reproduced exactly): " + strings.Join(diffs, "; ")
+		out.How = "the real function's outputs differ from the model's prediction on this input: " + strings.Join(diffs, "; ")
+		if hasLoops(u.fn) {
+			out.How += " [the function has loops proved by invariants: the solver's counterexample is a counterexample to the invariant argument and may describe an intermediate state that no execution reaches]"
+		} else {
+			out.How += " [the engine's model of the code is imprecise here, or the input could not be reproduced exactly]"
+		}
 		return
 	}
 	if ncmp == 0 {
@@ -1003,6 +1015,16 @@ func doReplay(eng *engine, id string, j job, replayPath string) (out replayOutco
 	out.Status = "confirmed"
 	out.How = fmt.Sprintf("on the counterexample input the real function returns exactly the results and leaves exactly the object contents the model predicts (%d values compared); for these values the solver showed the clause false", ncmp)
 	return
+}
+
+// maxLen: how many elements of a slice the replay is prepared to materialise
+func maxLen(t types.Type) int64 {
+	if st, ok := t.Underlying().(*types.Slice); ok {
+		if _, basic := st.Elem().Underlying().(*types.Basic); basic {
+			return 4096
+		}
+	}
+	return 256
 }
 
 func isPlainInt(v string) bool {
